@@ -49,6 +49,79 @@ theorem C01_fifo (o : Params) (ho : OrdersOK o) (cap batch : Nat) (hc : 0 < cap)
         startK (run o (init cap batch) ops).recs ((run o (init cap batch) ops).nread + 1) :=
   fifo_of_inv o _ (reachable_inv o ho ops _ (init_inv cap batch hc) hr) n he
 
+/-- the record lengths the producer wrote / the consumer read during a schedule, in schedule order -/
+def writesOf : List Op → List Nat
+  | [] => []
+  | .write n :: ops => n :: writesOf ops
+  | _ :: ops => writesOf ops
+
+def readsOf : List Op → List Nat
+  | [] => []
+  | .read n :: ops => n :: readsOf ops
+  | _ :: ops => readsOf ops
+
+theorem trace_fifo_of_inv (o : Params) (ho : OrdersOK o) :
+    ∀ (ops : List Op) (s : St), QInv s → Run o s ops →
+      (run o s ops).recs = s.recs ++ writesOf ops ∧
+      (run o s ops).nread = s.nread + (readsOf ops).length ∧
+      readsOf ops = ((s.recs ++ writesOf ops).drop s.nread).take (readsOf ops).length
+  | [], s, _, _ => by simp [run, writesOf, readsOf]
+  | op :: ops, s, h, hr => by
+    have hinv := step_inv o ho s op h hr.1
+    obtain ⟨ih1, ih2, ih3⟩ := trace_fifo_of_inv o ho ops (step o s op) hinv hr.2
+    cases op with
+    | write n =>
+      have e1 : (step o s (.write n)).recs = s.recs ++ [n] := rfl
+      have e2 : (step o s (.write n)).nread = s.nread := rfl
+      rw [e1] at ih1 ih3; rw [e2] at ih2 ih3
+      simp only [run, writesOf, readsOf]
+      refine ⟨by rw [ih1]; simp, ih2, ?_⟩
+      rw [show s.recs ++ n :: writesOf ops = s.recs ++ [n] ++ writesOf ops by simp]; exact ih3
+    | read n =>
+      obtain ⟨hk, _, hn, _, _⟩ := fifo_of_inv o s h n hr.1
+      have e1 : (step o s (.read n)).recs = s.recs := rfl
+      have e2 : (step o s (.read n)).nread = s.nread + 1 := rfl
+      rw [e1] at ih1 ih3; rw [e2] at ih2 ih3
+      simp only [run, writesOf, readsOf, List.length_cons]
+      refine ⟨ih1, by rw [ih2]; omega, ?_⟩
+      have hlt : s.nread < (s.recs ++ writesOf ops).length := by simp; omega
+      rw [List.drop_eq_getElem_cons hlt, List.take_succ_cons, ← ih3]
+      congr 1
+      rw [List.getElem_append_left hk]; exact hn
+    | reloadR v => exact ⟨ih1, ih2, ih3⟩
+    | commitW => exact ⟨ih1, ih2, ih3⟩
+    | loadW v => exact ⟨ih1, ih2, ih3⟩
+    | commitR b =>
+      have e1 : (step o s (.commitR b)).recs = s.recs := by simp only [step]; split <;> rfl
+      have e2 : (step o s (.commitR b)).nread = s.nread := by simp only [step]; split <;> rfl
+      rw [e1] at ih1 ih3; rw [e2] at ih2 ih3
+      exact ⟨ih1, ih2, ih3⟩
+
+/-- **Exactly once, in order — over the whole schedule** (audit round: `C01_fifo` is a statement about the next read
+    in every reachable state; this is its lifting to the trace). For every legal schedule from the initial state, the
+    sequence of record lengths the consumer read (`readsOf ops`, in schedule order) is a **prefix** of the sequence the
+    producer wrote (`writesOf ops`): no record lost in the middle, none duplicated, none reordered, none invented; and the
+    ghost fields the other theorems speak about are exactly these traces (`recs` = everything written, `nread` = number
+    of reads). With `C01_reachable_safe` (every byte of a read record is the byte written, and happens-after its commit)
+    this is "the consumer observes exactly the records the producer committed". -/
+theorem C01_trace_fifo (o : Params) (ho : OrdersOK o) (cap batch : Nat) (hc : 0 < cap)
+    (ops : List Op) (hr : Run o (init cap batch) ops) :
+    readsOf ops <+: writesOf ops ∧
+    (run o (init cap batch) ops).recs = writesOf ops ∧
+    (run o (init cap batch) ops).nread = (readsOf ops).length := by
+  obtain ⟨h1, h2, h3⟩ := trace_fifo_of_inv o ho ops _ (init_inv cap batch hc) hr
+  have e1 : (init cap batch).recs = [] := rfl
+  have e2 : (init cap batch).nread = 0 := rfl
+  rw [e1] at h1 h3; rw [e2] at h2 h3
+  simp only [List.nil_append, List.drop_zero, Nat.zero_add] at h1 h2 h3
+  exact ⟨by rw [h3]; exact List.take_prefix _ _, h1, h2⟩
+
+/-- non-vacuity: on the wrapping schedule of the example below the consumer has read `[5, 8]`, all that was written -/
+example : readsOf [.write 5, .commitW, .loadW 5, .read 5, .commitR true, .reloadR 5, .write 8, .commitW, .loadW 13, .read 8]
+      = [5, 8] ∧
+    writesOf [.write 5, .commitW, .loadW 5, .read 5, .commitR true, .reloadR 5, .write 8, .commitW, .loadW 13, .read 8]
+      = [5, 8] ∧ readsOf [.write 5, .commitW, .write 3, .loadW 5, .read 5] = [5] := by decide
+
 theorem grant_of_inv (s : St) (h : QInv s) (n : Nat) (he : Enabled s (.write n)) :
     n ≤ s.cap ∧ s.wpos + n ≤ s.cap + s.rHist.headD 0 ∧ s.rHist.headD 0 ≤ s.rpos := by
   obtain ⟨_, hn⟩ := he
